@@ -28,5 +28,6 @@ for f in sorted(glob.glob(sys.argv[1] + "/" + sys.argv[2] + "-*.json")):
     keys[k] = keys.get(k, 0) + 1
 print("KEYS %s: %s" % (sys.argv[2], "; ".join(sorted(keys)) or "-"))
 PY
+  if [ -n "${KEEP:-}" ]; then mkdir -p "$KEEP"; cp "$S/verif/replays/$id-"*.json "$KEEP/" 2>/dev/null; fi
 done
 exit $rc
